@@ -7,9 +7,9 @@
 (* prints every value with its reference encoding as a JSON test vector    *)
 (* for the real yabgp codec.                                               *)
 (***************************************************************************)
-EXTENDS WireUpdate, TLCExt, Json
+EXTENDS WireUpdate, WireOpen, TLCExt, Json
 
-CONSTANTS FAMILY      \* which vector family this run enumerates: "upd", "updvar", "cor"
+CONSTANTS FAMILY      \* which vector family this run enumerates: "upd", "updvar", "cor", "open", "openrt", "notif", "rr", "ka"
 
 VARIABLE vec
 UpdVecs == {[kind |-> "upd", asn4 |-> TRUE, var |-> Canon, u |-> u] : u \in UpdatePool(TRUE)}
@@ -21,13 +21,31 @@ VarVecs == {[kind |-> "updvar", asn4 |-> TRUE, var |-> v, u |-> u] : v \in Varia
            \cup {[kind |-> "updvar", asn4 |-> TRUE, var |-> Canon, u |-> [u EXCEPT !.attrs = Reverse(u.attrs)]] : u \in Many}
            \cup {[kind |-> "updvar", asn4 |-> TRUE, var |-> Canon, u |-> [u EXCEPT !.attrs = Rotate(u.attrs)]] : u \in Many}
 CorVecs == {[kind |-> "cor", asn4 |-> TRUE, var |-> Canon, u |-> c] : c \in Corruptions}
+OpenVecs == {[kind |-> "open", u |-> o] : o \in {x \in OpenPool : NeedsAs4(x)}}
+OpenRtVecs == {[kind |-> "openrt", u |-> o] : o \in OpenRtPool}
+NotifVecs == {[kind |-> "notif", u |-> n] : n \in NotifPool}
+RRVecs == {[kind |-> "rr", u |-> r] : r \in RRPool}
 Vecs == CASE FAMILY = "upd" -> UpdVecs [] FAMILY = "updvar" -> VarVecs [] FAMILY = "cor" -> CorVecs
+          [] FAMILY = "open" -> OpenVecs [] FAMILY = "openrt" -> OpenRtVecs [] FAMILY = "notif" -> NotifVecs
+          [] FAMILY = "rr" -> RRVecs [] FAMILY = "ka" -> {[kind |-> "ka", u |-> [x |-> 0]]}
 
-Bytes(v) == IF v.kind = "cor" THEN Message(2, v.u.b) ELSE EncUpdate(v.u, v.asn4, v.var)
+Bytes(v) ==
+   CASE v.kind = "cor" -> Message(2, v.u.b)
+     [] v.kind \in {"open", "openrt"} -> EncOpen(v.u)
+     [] v.kind = "notif" -> EncNotification(v.u.code, v.u.sub, v.u.data)
+     [] v.kind = "rr" -> EncRouteRefresh(v.u.typ, v.u.afi, v.u.res, v.u.safi)
+     [] v.kind = "ka" -> EncKeepalive
+     [] OTHER -> EncUpdate(v.u, v.asn4, v.var)
 Init == vec \in Vecs
 Next == FALSE /\ UNCHANGED vec
 \* theorem on the specification: reference encodings are structurally valid (add-path identifiers change the
 \* prefix-list format, so those variants are outside the walker's scope)
-RefWellFormed == (vec.kind # "cor" /\ ~vec.var.pathids) => WfUpdate(Bytes(vec), vec.asn4)
+RefWellFormed ==
+   CASE vec.kind \in {"upd", "updvar"} -> (~vec.var.pathids => WfUpdate(Bytes(vec), vec.asn4))
+     [] vec.kind \in {"open", "openrt"} -> WfOpen(Bytes(vec))
+     [] vec.kind = "notif" -> WfNotification(Bytes(vec))
+     [] vec.kind = "rr" -> WfRouteRefresh(Bytes(vec))
+     [] vec.kind = "ka" -> WfKeepalive(Bytes(vec))
+     [] OTHER -> TRUE
 Emit == PrintT("@W " \o ToJson([vec EXCEPT !.u = IF vec.kind = "cor" THEN [name |-> vec.u.name] ELSE vec.u] @@ [b |-> Bytes(vec)]))
 =============================================================================
